@@ -139,7 +139,7 @@ def do_task(sb, t):
             rows[str(uc)] = [cfg.KEEP, cfg.REMOVE, cfg.ADD, cfg.INFO, cfg.RESET]
         res['constants'] = rows
     elif op == 'cli':
-        res.update(do_cli_git(sb, t) if t.get('app') == 'nbdiff-git' else do_cli(sb, t))
+        res.update(do_cli_git(sb, t) if t.get('app') == 'nbdiff-git' else do_cli_merge(sb, t) if t.get('app') == 'nbmerge' else do_cli(sb, t))
     else:
         raise ValueError(op)
     return res
@@ -192,6 +192,58 @@ def do_cli(sb, t):
         os.environ['PATH'] = sb.orig_path
         return {'recs': recs}
     finally:
+        os.chdir(cwd)
+        shutil.rmtree(d, ignore_errors=True)
+
+def do_cli_merge(sb, t):
+    """nbmerge --decisions entry point, in-process.  t['nbs'] = [base, local, remote]; None stands for the null file
+    (/dev/null): the notebook does not exist on that side.  The decision summary is written through the 'nbdime' logger, so the
+    record holds stdout ('out') and the formatted log records ('log') separately."""
+    import contextlib, logging
+    d = tempfile.mkdtemp(prefix='nbv_c16mrg_')
+    cwd = os.getcwd()
+    null = 'nul' if os.name == 'nt' else '/dev/null'
+    try:
+        files = []
+        for i, nb in enumerate(t['nbs']):
+            if nb is None: files.append(null); continue
+            p = os.path.join(d, '%s.ipynb' % ('base', 'local', 'remote')[i])
+            with open(p, 'w', encoding='utf8') as fh: json.dump(nb, fh)
+            files.append(p)
+        os.chdir(d)
+        recs = []
+        for argv, tools in zip(t['argvs'], t['tools']):
+            sb.set_tools(*tools)
+            buf = io.StringIO(); logbuf = io.StringIO(); rec = {}
+            lg = logging.getLogger('nbdime')
+            h = logging.StreamHandler(logbuf); h.setLevel(logging.DEBUG)
+            h.setFormatter(logging.Formatter('[%(levelname)1.1s %(module)s:%(lineno)d] %(message)s'))
+            prop = lg.propagate
+            try:
+                from nbdime import nbmergeapp
+                with contextlib.redirect_stdout(buf):
+                    lg.addHandler(h); lg.propagate = False
+                    rc = nbmergeapp.main(['--decisions'] + argv + files)
+                rec['rc'] = rc; rec['out'] = buf.getvalue(); rec['log'] = logbuf.getvalue()
+            except SystemExit as e:
+                rec['rc'] = e.code; rec['out'] = buf.getvalue(); rec['log'] = logbuf.getvalue(); rec['exit'] = True
+            except BaseException as e:
+                tb = traceback.extract_tb(e.__traceback__)
+                rec.update(err=type(e).__name__, msg=str(e)[:300], partial=(buf.getvalue() + logbuf.getvalue())[-300:],
+                           where=['%s:%s' % (os.path.basename(f.filename), f.name) for f in tb if 'nbdime' in f.filename][-3:])
+            finally:
+                lg.removeHandler(h); lg.propagate = prop
+                try:
+                    from nbdime.diffing.notebooks import reset_notebook_differ
+                    reset_notebook_differ()
+                except Exception:
+                    pass
+            rec['tools'] = sb.take_log()
+            recs.append(rec)
+        os.environ['PATH'] = sb.orig_path
+        return {'recs': recs}
+    finally:
+        os.environ['PATH'] = sb.orig_path
         os.chdir(cwd)
         shutil.rmtree(d, ignore_errors=True)
 
